@@ -643,6 +643,56 @@ fn main() {
 			enumerate(&mut c, &mut out, 0, "issue_invoice", mop.clone(), &ops0.clone(), &mut f, true);
 			if let Some(s) = icell.lock().unwrap().clone() { let got = c.num(s.id); assert_eq!(got, nn); }
 			ops0.push(mop);
+			// ---- the payer's side of the invoice on wallet 1 (pay, reserve), then the issuer's finalize:
+			// effects and recovery only (no model comparison)
+			let inv_opt = icell.lock().unwrap().clone();
+			if let Some(inv) = inv_opt {
+				let inv = wire(&inv);
+				c.s.with(1, |b, m| { let pk = b.parent_key_id(); updater::refresh_outputs(b, m, &pk, true) }).unwrap();
+				let pcell: Arc<StdMutex<Option<Slate>>> = Arc::new(StdMutex::new(None));
+				{
+					let pc = pcell.clone();
+					let invc = inv.clone();
+					let mut f = |c: &mut Ctx| {
+						let a = InitTxArgs { src_acct_name: None, amount: invc.amount, minimum_confirmations: 1, max_outputs: 500,
+							num_change_outputs: 2, selection_strategy_is_use_all: false, ..Default::default() };
+						let r = guarded(|| c.s.with(1, |b, m| owner::process_invoice_tx(b, m, &invc, a, false)));
+						if let Ok(Ok(s)) = &r { *pc.lock().unwrap() = Some(s.clone()); }
+						rc_of(&r)
+					};
+					enumerate(&mut c, &mut out, 1, "process_invoice", json!(null), &[], &mut f, true);
+				}
+				let paid_opt = pcell.lock().unwrap().clone();
+				if let Some(paid) = paid_opt {
+					let paid = wire(&paid);
+					{
+						let pd = paid.clone();
+						let mut f = |c: &mut Ctx| rc_of(&guarded(|| c.s.with(1, |b, m| owner::tx_lock_outputs(b, m, &pd))));
+						enumerate(&mut c, &mut out, 1, "lock_invoice", json!(null), &[], &mut f, true);
+					}
+					{
+						let pd = paid.clone();
+						let mut f = |c: &mut Ctx| rc_of(&guarded(|| c.s.with(0, |b, m| foreign::finalize_tx(b, m, &pd, false))));
+						enumerate(&mut c, &mut out, 0, "finalize_invoice", json!(null), &[], &mut f, false);
+					}
+				}
+			}
+		}
+		// ---- a late-locked send: nothing is selected or reserved until finalize_tx, which then selects,
+		// reserves, signs, stores and consumes the context in one call
+		{
+			let args3 = InitTxArgs { amount: 1_500_000_000, minimum_confirmations: 1, max_outputs: 500,
+				num_change_outputs: 2, selection_strategy_is_use_all: false, late_lock: Some(true), ..Default::default() };
+			let sl = c.s.with(0, |b, m| owner::init_send_tx(b, m, args3, false));
+			if let Ok(sl) = sl {
+				let sl = wire(&sl);
+				let _ = c.num(sl.id);
+				if let Ok(reply) = c.s.with(1, |b, m| foreign::receive_tx(b, m, &sl, None, false)) {
+					let reply = wire(&reply);
+					let mut f = |c: &mut Ctx| rc_of(&guarded(|| c.s.with(0, |b, m| owner::finalize_tx(b, m, &reply))));
+					enumerate(&mut c, &mut out, 0, "finalize_late_lock", json!(null), &[], &mut f, true);
+				}
+			}
 		}
 		// ---- update_wallet_state (refresh + kernel lookups + scan + ttl), effects only, no model
 		{
